@@ -30,8 +30,9 @@ fn main() {
         corpus.push(("tzdata-slim", zones::tzdata("slim")));
         corpus.push(("tzdata-fat", zones::tzdata("fat")));
     } else {
-        let b: Vec<ZoneSrc> = zones::bundled().into_iter().filter(|z| zones::REP.contains(&z.name.as_str())).collect();
-        corpus.push(("bundled-rep", b));
+        // quick: all bundled zones too (slim data: this is where in-memory
+        // fattening from the footer actually adds transitions)
+        corpus.push(("bundled", zones::bundled()));
     }
     for (tag, zs) in &corpus {
         let sec = format!("tzif:{}", tag);
@@ -230,8 +231,9 @@ fn check_zone(r: &Report, sec: &str, p: &Pair) -> (u64, u64) {
     const CAP: usize = 40_000;
     // to exhaustion from the limits and the epoch
     let mut ex: Vec<(Timestamp, bool)> = vec![(Timestamp::MIN, true), (Timestamp::MAX, false), (Timestamp::MAX, true), (Timestamp::MIN, false)];
-    if quick && p.origin == "posix" {
-        // quick: POSIX strings run to exhaustion over the last/first millennium only
+    // POSIX strings run to exhaustion over the last / first millennium only
+    // (thorough: every 16th string, by length of the string, over the whole range)
+    if p.origin == "posix" && (quick || p.name.len() % 16 != 0) {
         ex[0].0 = Timestamp::from_second(221_845_392_000).unwrap(); // 9000-01-01
         ex[1].0 = Timestamp::from_second(-346_149_504_000).unwrap(); // ~ -9000
     }
